@@ -159,7 +159,7 @@ def simplify(t, memo=None):
         elif len(undecided) == 1 and is_concrete(scrut) and undecided[0][0][1] is None:
             r = simplify(undecided[0][1], memo)
         else:
-            r = ("switch", scrut, tuple(((d, g), simplify(v, memo)) for (d, g), v in undecided))
+            r = ("switch", scrut, tuple(((d, g), simplify(v, memo)) for (d, g), v in undecided)) + tuple(t[3:])
     elif k == "matches":
         scrut = simplify(t[1], memo)
         m = match_desc(t[2], scrut) if is_concrete(scrut) else None
